@@ -13,7 +13,7 @@ from pipeline import Pipeline, Gen
 import verifkit as vk
 
 FF = "PALOMA_FF_PIGEON_STATUS_UPDATE"
-QUERY_KINDS = ("pick", "assign", "simulate", "relay", "snapshot", "snapbuild", "evidence", "uptime", "chaininfojail", "history")
+QUERY_KINDS = ("pick", "assign", "simulate", "relay", "snapshot", "snapbuild", "evidence", "uptime", "chaininfojail", "history", "prunejail")
 
 
 class C08(Pipeline):
